@@ -361,12 +361,30 @@ func (t *Tree) stmt(ctx string, s *Scope) Node {
 
 	//Validate cardinality, ordering, and arguemnt syntax
 	e := n.check()
+	if e == nil && n.Type() == NodeUnknown && strings.Contains(id.val, ":") {
+		e = checkPrefixedKeyword(id.val)
+	}
 	if e != nil {
 		s, _ := n.ErrorContext()
 		panic(fmt.Errorf("%s: %s", s, e))
 	}
 
 	return n
+}
+
+// unknown-statement = prefix ":" identifier, both of them identifiers.
+func checkPrefixedKeyword(kw string) error {
+	parts := strings.Split(kw, ":")
+	if len(parts) != 2 {
+		return fmt.Errorf("invalid extension keyword: %s", kw)
+	}
+	for _, p := range parts {
+		id := IdArg{arg(p)}
+		if id.Parse() != nil {
+			return fmt.Errorf("invalid extension keyword: %s", kw)
+		}
+	}
+	return nil
 }
 
 // These are the only four valid escape sequences permitted in a
